@@ -399,7 +399,14 @@ def r5_binder_kind(c, facts, rule='C08.R5', crates=('oal_compiler',)):
                   % (fn.qname, '; '.join(desc), ','.join(missing), fn.file, e['ln']), **inst)
 
 
+def r6_accessors(c, facts):
+    import c10
+    R = c.rule('C08.R6', 'DECLS-COMPLETE: every declaration of a module is pre-declared (Program::declarations yields all of them)')
+    c10.accessor_complete(c, facts, R, 'oal_syntax::parser::Program::declarations', 'declaration')
+
+
 def run(c, facts):
+    c.run(r6_accessors, facts)
     c.run(r1_innermost, facts)
     c.run(r2_pairing, facts)
     c.run(r3_eager, facts)
